@@ -2519,7 +2519,7 @@ static R MPSgetRHS(R left, R right)
    else if(right <  R(infinity))
       rhsval = right;
    else
-      throw SPxInternalCodeException("XMPSWR01 This should never happen.");
+      rhsval = right;   // free row, written as "<= infinity" (see the ROWS section)
 
    return rhsval;
 }
@@ -2594,7 +2594,7 @@ void SPxLPBase<R>::writeMPS(
       else if(rhs(i) <  R(infinity))
          indicator = "L";
       else
-         throw SPxInternalCodeException("XMPSWR02 This should never happen.");
+         indicator = "L";   // free row: written as "<= infinity", as the LP format writer does
 
       MPSwriteRecord<R>(p_output, indicator, MPSgetRowName(*this, i, p_rnames, name));
    }
